@@ -2759,7 +2759,7 @@ event_add_nolock_(struct event *ev, const struct timeval *tv,
 	 * until the callback is done before we mess with the event, or else
 	 * we can race on ev_ncalls and ev_pncalls below. */
 #ifndef EVENT__DISABLE_THREAD_SUPPORT
-	if (base->current_event == event_to_event_callback(ev) &&
+	while (base->current_event == event_to_event_callback(ev) &&
 	    (ev->ev_events & EV_SIGNAL)
 	    && !EVBASE_IN_THREAD(base)) {
 		++base->current_event_waiters;
@@ -3004,7 +3004,7 @@ event_del_nolock_(struct event *ev, int blocking)
 	 * returns, it will be safe to free the user-supplied argument.
 	 */
 #ifndef EVENT__DISABLE_THREAD_SUPPORT
-	if (blocking != EVENT_DEL_NOBLOCK &&
+	while (blocking != EVENT_DEL_NOBLOCK &&
 	    base->current_event == event_to_event_callback(ev) &&
 	    !EVBASE_IN_THREAD(base) &&
 	    (blocking == EVENT_DEL_BLOCK || !(ev->ev_events & EV_FINALIZE))) {
@@ -3072,7 +3072,7 @@ event_active_nolock_(struct event *ev, int res, short ncalls)
 
 	if (ev->ev_events & EV_SIGNAL) {
 #ifndef EVENT__DISABLE_THREAD_SUPPORT
-		if (base->current_event == event_to_event_callback(ev) &&
+		while (base->current_event == event_to_event_callback(ev) &&
 		    !EVBASE_IN_THREAD(base)) {
 			++base->current_event_waiters;
 			EVTHREAD_COND_WAIT(base->current_event_cond, base->th_base_lock);
